@@ -53,7 +53,7 @@ func genPair(r *lib.Rand, o gen.SchemaOpts) (g *gen.SchemaGen, doc map[string]an
 
 // explain searches the smallest set of recorded deviations (emulation switches) under which the
 // model reproduces the implementation's verdict; nil when no subset does.
-func explain(schema, inst any, implValid bool) []string {
+func explain(schema, inst any, implValid bool, formats strfmt.Registry) []string {
 	n := len(model.EmuNames)
 	masks := make([]int, 0, 1<<n)
 	for m := 1; m < 1<<n; m++ {
@@ -66,7 +66,7 @@ func explain(schema, inst any, implValid bool) []string {
 		return masks[i] < masks[j]
 	})
 	for _, m := range masks {
-		c := &model.Ctx{Root: schema, Formats: strfmt.Default, Emu: model.EmuFromMask(m)}
+		c := &model.Ctx{Root: schema, Formats: formats, Emu: model.EmuFromMask(m)}
 		if c.Valid(schema, inst) == implValid && !c.Unresolved {
 			// every switch of the subset must have changed a decision, otherwise a smaller subset matched earlier
 			var keys []string
@@ -89,19 +89,25 @@ func explain(schema, inst any, implValid bool) []string {
 
 func (p *c01) Run(w *lib.Worker, idx int, r *lib.Rand) lib.Case {
 	g, doc, instRaw := genPair(r, gen.SchemaOpts{MaxDepth: 4, Refs: true, FormatAnyType: true, SpecialNames: true, EmptyNames: true})
+	// three cases out of ten run with a caller-supplied registry which disagrees with strfmt.Default
+	formats, regName := strfmt.Registry(strfmt.Default), "strfmt.Default"
+	if g.Features["format"] && r.P(0.6) || r.P(0.1) {
+		formats, regName = altRegistry(), "alternative"
+		renameFormats(r, doc)
+	}
 	st, it := gen.JSON(doc), gen.JSON(instRaw)
 	schema, err1 := model.Parse(st)
 	inst, err2 := model.Parse(it)
 	if err1 != nil || err2 != nil {
 		return lib.Case{Inconclusive: "generated text does not parse"}
 	}
-	mc := &model.Ctx{Root: schema, Formats: strfmt.Default, Touched: map[string]int{}}
+	mc := &model.Ctx{Root: schema, Formats: formats, Touched: map[string]int{}}
 	want := mc.Valid(schema, inst)
 	if mc.Unresolved {
 		return lib.Case{Inconclusive: "model could not resolve a reference the generator produced"}
 	}
-	one := sut.Against(st, it, strfmt.Default)
-	obj := sut.WithValidator(st, it, "", strfmt.Default)
+	one := sut.Against(st, it, formats)
+	obj := sut.WithValidator(st, it, "", formats)
 
 	c := lib.Case{Hash: lib.Hash64(append(append([]byte{}, st...), it...)), Evals: 2}
 	groups := make([]string, 0, len(mc.Touched))
@@ -121,8 +127,11 @@ func (p *c01) Run(w *lib.Worker, idx int, r *lib.Rand) lib.Case {
 	for f := range g.Features {
 		c.Tags = append(c.Tags, "feat:"+f)
 	}
-	c.Tags = append(c.Tags, boolTag("model-valid", want))
-	sample := map[string]any{"schema": string(st), "instance": string(it), "draft4": want, "AgainstSchema": one, "validator": obj}
+	c.Tags = append(c.Tags, boolTag("model-valid", want), "registry:"+regName)
+	if regName == "alternative" && mc.Touched["format"] > 0 {
+		c.Tags = append(c.Tags, "format-judged-by-alternative-registry")
+	}
+	sample := map[string]any{"registry": regName, "schema": string(st), "instance": string(it), "draft4": want, "AgainstSchema": one, "validator": obj}
 	if idx%50000 == 0 {
 		c.Sample = sample
 	}
@@ -144,7 +153,7 @@ func (p *c01) Run(w *lib.Worker, idx int, r *lib.Rand) lib.Case {
 	if one.Valid == want {
 		return c
 	}
-	if keys := explain(schema, inst, one.Valid); keys != nil {
+	if keys := explain(schema, inst, one.Valid, formats); keys != nil {
 		c.Known = keys
 		c.KnownWhat = fmt.Sprintf("schema=%s instance=%s draft4=%v impl=%v", st, it, want, one.Valid)
 		c.Sample = sample
@@ -160,6 +169,9 @@ func (p *c01) Finish(a *lib.Aggregate) (broken []string) {
 		if a.Tags[k] == 0 {
 			broken = append(broken, "keyword group never evaluated: "+k)
 		}
+	}
+	if a.Tags["format-judged-by-alternative-registry"] == 0 {
+		broken = append(broken, "no format was ever judged by the caller-supplied alternative registry")
 	}
 	if a.Tags["model-valid:yes"] == 0 || a.Tags["model-valid:no"] == 0 {
 		broken = append(broken, "verdict split is degenerate")
